@@ -45,7 +45,7 @@ fn oracle<const N: usize>(conns: &[SrtlaConnection; N], now: u64, cfg: &ConfigSn
     (c, any_unconstrained)
 }
 
-fn check_enhanced<const N: usize>() {
+fn check_enhanced<const N: usize, const SMALL: bool>() {
     let now = any_now();
     let cfg = any_config(SchedulingMode::Enhanced);
     let vals: [ConnVals; N] = core::array::from_fn(|_| {
@@ -54,7 +54,9 @@ fn check_enhanced<const N: usize>() {
         // Score factors are drawn from a grid (stated bound): SAT does not finish on the comparison of two
         // fully symbolic f64 product pipelines (selector vs oracle); over a grid it does.  The grid contains
         // the extremes of every documented range, equal values (ties) and values 10 % apart (hysteresis edge).
-        let qk: u8 = kani::any();
+        // SMALL = the sub-grid used by the quick-tier instance (range extremes, 1.0 and the pair 10 % apart);
+        // (a sub-grid instance was measured and is NOT faster - 685 s - so it is not registered; the oracle runs in the thorough tier)
+        let qk: u8 = if SMALL { let k: u8 = kani::any(); [0u8, 2, 3][(k % 3) as usize] } else { kani::any() };
         v.quality_mult = match qk % 5 {
             0 => 0.35,
             1 => 0.5,
@@ -62,7 +64,7 @@ fn check_enhanced<const N: usize>() {
             3 => 1.1,
             _ => 1.1 * 1.03,
         };
-        let sk: u8 = kani::any();
+        let sk: u8 = if SMALL { let k: u8 = kani::any(); [0u8, 1, 2, 5][(k % 4) as usize] } else { kani::any() };
         v.consecutive_acks_without_nak = match sk % 6 {
             0 => 0,
             1 => 10,
@@ -127,7 +129,7 @@ fn check_enhanced<const N: usize>() {
 #[kani::stub(srtla_core::selection::enhanced::in_flight_cap_exceeded, cap_exceeded_abs)]
 #[kani::stub(srtla_core::selection::enhanced::cc_soft_cap_multiplier, soft_cap_abs)]
 fn c11_enhanced_oracle_n2() {
-    check_enhanced::<2>();
+    check_enhanced::<2, false>();
 }
 
 #[kani::proof]
@@ -136,5 +138,5 @@ fn c11_enhanced_oracle_n2() {
 #[kani::stub(srtla_core::selection::enhanced::in_flight_cap_exceeded, cap_exceeded_abs)]
 #[kani::stub(srtla_core::selection::enhanced::cc_soft_cap_multiplier, soft_cap_abs)]
 fn c11_enhanced_oracle_n3() {
-    check_enhanced::<3>();
+    check_enhanced::<3, false>();
 }
